@@ -1,8 +1,8 @@
 SPECIFICATION Spec
 CONSTANTS
   Variant = "ok"
-  Fams = {"fg", "async", "stop1", "tty", "zomb", "nomon"}
-  Cfgs = {"m", "mi", "-", "mib"}
+  Fams = {"fg", "async", "stop1", "tty", "zomb", "nomon", "hang"}
+  Cfgs = {"m", "mi", "-", "mib", "ml"}
   Enf = {TRUE, FALSE}
 INVARIANT AllLaws
 INVARIANT EmitScn
